@@ -55,6 +55,7 @@ def parseMode (m : String) (arg : Nat) : Mode :=
   | "ff" => Mode.ff
   | "gp" => Mode.gp
   | "ls" => Mode.ls
+  | "ip" => Mode.ip
   | "sv" => Mode.sv arg
   | _ => Mode.se arg
 
